@@ -417,34 +417,37 @@ def _entry_points(repo, res, classes):
     res.fn(fn)
     names = [a.arg for a in fn.node.args.args]
     x, nd = names[1], names[2]
-    need = {f"{x}.units.dimensions in self._dims", f"{nd} in self._dims"}
-    for i, p in enumerate(enum_paths(fn.body)):
-        facts = {t for t, tr, _ in path_facts(p) if tr}
-        end = p[-1]
-        if end[0] == "return":
-            ok = need <= facts and isinstance(end[1].value, ast.Call) and norm(end[1].value.func) == "self._convert" and [norm(a) for a in end[1].value.args] == [x, nd] and any(k.arg is None for k in end[1].value.keywords)
-            res.check(ok, f"convert:return#{i}", fn.where(end[1]), "Equivalence.convert returns without both membership tests (or does not forward x, new_dims, **kwargs)", sorted(need), sorted(facts), rid=r6)
+    from engine.sem import summarise
+
+    m1, m2 = f"{x}.units.dimensions in self._dims", f"{nd} in self._dims"
+    n_ret = 0
+    for i, sm in enumerate(summarise(fn)):
+        both = sm.has(m1, True) and sm.has(m2, True)
+        if sm.kind == "return":
+            n_ret += 1
+            call = ast.parse(sm.value).body[0].value if sm.value else None
+            ok = both and isinstance(call, ast.Call) and norm(call.func) == "self._convert" and [norm(a_) for a_ in call.args] == [x, nd] and any(k.arg is None for k in call.keywords)
+            res.check(ok, f"convert:return#{i}", fn.where(), "Equivalence.convert returns without both membership tests (or does not forward x, new_dims, **kwargs)", [m1, m2], sorted(sm.facts), rid=r6)
         else:
-            ok = end[0] == "raise" and norm(end[1].exc).startswith("InvalidUnitEquivalence(")
-            res.check(ok, f"convert:refuse#{i}", fn.where(end[1]) if end[1] is not None else fn.where(), "a request outside _dims must raise InvalidUnitEquivalence", "raise InvalidUnitEquivalence", end[0], rid=r6)
+            ok = sm.kind == "raise" and sm.value.startswith("InvalidUnitEquivalence(") and not both
+            res.check(ok, f"convert:refuse#{i}", fn.where(), "a request outside _dims must raise InvalidUnitEquivalence", "raise InvalidUnitEquivalence", sm.kind, rid=r6)
+    if n_ret == 0:
+        raise AnalysisError(f"{fn.where()}: no returning path in Equivalence.convert")
 
     # (b) _get_out
     fn = mod.func("Equivalence._get_out")
     res.fn(fn)
     xn = fn.node.args.args[1].arg
     good = True
-    for p in enum_paths(fn.body):
-        facts = dict((t, tr) for t, tr, _ in path_facts(p))
-        end = p[-1]
-        if end[0] != "return":
+    sums = summarise(fn)
+    for sm in sums:
+        if sm.kind != "return":
             good = False
-            continue
-        val = norm(end[1].value) if end[1].value is not None else "None"
-        if facts.get("self.in_place") is True:
-            good &= val == xn
+        elif sm.has("self.in_place", True):
+            good &= sm.value == xn
         else:
-            good &= val == "None"
-    res.check(good, "_get_out", fn.where(), "_get_out must return x iff self.in_place, else None", rid=r6)
+            good &= sm.value == "None" and sm.has("self.in_place", False)
+    res.check(good and len(sums) >= 2, "_get_out", fn.where(), "_get_out must return x iff self.in_place, else None", found=[(sorted(sm.facts), sm.value) for sm in sums], rid=r6)
     fn = mod.func("Equivalence.__init__")
     dflt = fn.node.args.defaults
     res.check(len(dflt) == 1 and isinstance(dflt[0], ast.Constant) and dflt[0].value is False and any(norm(s) == "self.in_place = in_place" for s in fn.body), "in_place-default", fn.where(), "Equivalence() must default to copying (in_place=False) and store the flag", rid=r6)
